@@ -56,16 +56,22 @@ ok = res.get("demo_clean") == 0 and res.get("demo_patched") == 1 and (skip_suite
 if ok or "--keep" in args:
     out = f"/verif/seeded/{sid}"
     os.makedirs(out, exist_ok=True)
-    shutil.copy(sd + "/patch.diff", out + "/patch.diff")
-    shutil.copy(sd + "/demo.py", out + "/demo.py")
+    same = os.path.realpath(sd) == os.path.realpath(out)
+    if not same:
+        shutil.copy(sd + "/patch.diff", out + "/patch.diff")
+        shutil.copy(sd + "/demo.py", out + "/demo.py")
     meta = {}
     try:
         meta = json.load(open(sd + "/meta.json"))
     except Exception:
         pass
-    meta.update({"property": prop, "confirmed": {k: res.get(k) for k in ("demo_clean", "demo_patched", "suite_ok", "suite")},
-                 "what_we_ran": f"scratch copy of /repo + patch: demo.py, pinned suite (tools_suite.py), ./check {','.join(checks)} --tier {tier} with VERIF_REPO=<scratch>",
-                 "detected_by": {c: res.get(f"check_{c}") for c in checks}})
+    det = dict(meta.get("detected_by") or {}) if same else {}
+    det.update({c: res.get(f"check_{c}") for c in checks})
+    conf = dict(meta.get("confirmed") or {}) if same else {}
+    conf.update({k: res.get(k) for k in ("demo_clean", "demo_patched", "suite_ok", "suite") if res.get(k) is not None})
+    meta.update({"property": prop, "confirmed": conf,
+                 "what_we_ran": f"scratch copy of /repo + patch: demo.py, pinned suite (tools_suite.py), ./check <ids under detected_by> --tier {tier} with VERIF_REPO=<scratch>",
+                 "detected_by": det})
     json.dump(meta, open(out + "/meta.json", "w"), indent=1)
     print("stored", out)
 else:
